@@ -206,6 +206,11 @@ func runWorldCase(c *Case, env *Env) *Result {
 					if f = checkStatsMergeAdds(ws.Seg, w.Segs[ws.Idx-1].Seg, fld); f != nil {
 						break
 					}
+					// and the other way round: the earlier segment's answer (often for a
+					// field it does not know) receives this segment's numbers
+					if f = checkStatsMergeAdds(w.Segs[ws.Idx-1].Seg, ws.Seg, fld); f != nil {
+						break
+					}
 				}
 				if f == nil {
 					f = checkStatsMergeAdds(ws.Seg, w.Segs[0].Seg, model.UnknownField)
